@@ -25,7 +25,8 @@
                        `ctfTR_answers_or_fails`
   OPEN (stated below): ctfTR_no_internal_error on the crash classes (false on one, open on two).
   The VALUE clause is in Y0/Props/C09Sound.lean: `ctfTRu_sound_partial` (Algorithm 2, proved inside the decidable class
-  `ctfSoundClass`), `ctfTR_sound_of_parts` (Algorithm 3, reduced to two named identities); OPEN there: ctfTR_sound.
+  `ctfSoundClass`), `ctfTR_sound_partial` (Algorithm 3, proved inside the decidable class `ctfTRSoundClass`);
+  OPEN there: both clauses outside their classes.
 
   Reading guide for §5 (definitions in Y0/Lemmas/CtfTrSimplify.lean, CtfTrLine2.lean, CtfTrSigma.lean, CtfTrTotal.lean):
     Reflexive e      := e.any fun p => p.1.ivs.any (·.name == p.1.name)          some event variable is `Y_y`
@@ -392,7 +393,8 @@ theorem transportFactors_all (ds : List Domain) : ∀ (fs : List Event) (qs : Li
 --   `ctfTRu_sound_partial`      PROVED for every validated input whose simplified event is in the decidable class
 --                               `ctfSoundClass` (no hypothesis about any part of the algorithm is left), for every family
 --                               of functional SCMs compatible with the declared domains (Y0/Spec/CtfFamilySpec.lean);
---   `ctfTR_sound_of_parts`      Algorithm 3 reduced to two named marginalisation-and-independence identities.
+--   `ctfTR_sound_partial`       Algorithm 3: PROVED for every validated conditional query in the decidable class
+--                               `ctfTRSoundClass` (the two identities of `ctfTR_sound_of_parts` are discharged).
 --   FALSE of the current code outside the class: events that give one variable two values, name one variable in two
 --   worlds, bind a literal subscript by a summation, or contain a self-intervened variable (known findings
 --   value:two_values, value:multi_world, value:literal_bound, value:reflexive — inherited from C19's findings).
